@@ -329,10 +329,10 @@ def _nf_relation(eng, fi, at):
             k = vfg.key_of(e)
         except AnalysisError:
             return False
-        if k in nfw.nodes:
+        if k in nfw.plain:
             return True
         # a read of the same storage as a counter node: field or local defs in the closure
-        return any(s in nfw.nodes for (s, kind, info) in vfg.preds.get(k, []) if kind == "copy")
+        return any(s in nfw.plain for (s, kind, info) in vfg.preds.get(k, []) if kind == "copy")
 
     def is_max(e):
         return "maxfun" in ekey(e).lower()
